@@ -7,6 +7,7 @@
      object.  The read asks for the user AND the user type's wildcard, so two tuples of one object
      (user:a and user:* ) are normal — the second is dropped before its condition is looked at. *)
 From Coq Require Import List NArith Bool Arith.
+From OFGA Require Import Check.V1Weight2.
 Import ListNotations.
 Open Scope N_scope.
 
@@ -52,3 +53,9 @@ Fixpoint nodupb (l : list N) : bool :=
   | [] => true
   | x :: r => negb (existsb (N.eqb x) r) && nodupb r
   end.
+
+(* an iterator message of a fast-path stream whose iterator is a ConditionsFilteredTupleKeyIterator
+   over tuples with the given condition outcomes (consumed with Head/Next by the set operations):
+   it delivers the objects of the passing tuples and, at its end, fails iff nothing passed and some
+   condition could not be evaluated *)
+Definition cond_chunk (l : list stup) : chunk := Ch (fst (cond_objs l)) (snd (cond_objs l)).
